@@ -147,13 +147,17 @@ pub fn build_command(root: &Path, cfg: &Config) -> MosResult<()> {
         // that is not enough to tell them apart: then the directories (relative to the project) become part of the name
         let stem = |p: &Path| p.file_stem().unwrap().to_string_lossy().to_string();
         let stems = listings.keys().map(|p| stem(p)).collect::<Vec<_>>();
+        // (in the order of the paths, not in the hash order of the map: which file gets which name does not change from run to run)
+        let mut listings = listings.into_iter().collect::<Vec<_>>();
+        listings.sort_by(|a, b| a.0.cmp(&b.0));
+        let mut taken = std::collections::HashSet::new();
         for (source_path, contents) in listings {
             let unique = stems.iter().filter(|s| **s == stem(&source_path)).count() == 1;
-            let listing_path = if unique {
-                format!("{}.lst", stem(&source_path))
+            let name = if unique {
+                stem(&source_path)
             } else {
                 let relative = source_path.strip_prefix(root).unwrap_or(&source_path);
-                let name = relative
+                relative
                     .with_extension("")
                     .components()
                     .filter_map(|c| match c {
@@ -161,9 +165,15 @@ pub fn build_command(root: &Path, cfg: &Config) -> MosResult<()> {
                         _ => None,
                     })
                     .collect::<Vec<_>>()
-                    .join("_");
-                format!("{}.lst", name)
+                    .join("_")
             };
+            // lib/main.asm next to lib_main.asm: a name that is taken already gets a number, so that no listing overwrites another
+            let mut listing_path = format!("{}.lst", name);
+            let mut n = 1;
+            while !taken.insert(listing_path.clone()) {
+                n += 1;
+                listing_path = format!("{}_{}.lst", name, n);
+            }
             let mut out = fs::File::create(target_dir.join(listing_path)).map_err(map_io_error)?;
             out.write_all(contents.as_bytes()).map_err(map_io_error)?;
         }
